@@ -147,3 +147,20 @@ Example fields_nonvacuous :
        (s2b "grp") (s2b "cid1") (s2b "{""u"":2}") (s2b "{""a"":1}") [(s2b "H", [s2b "v"])]
        (s2b "host") (s2b "1.2.3.4") (s2b "/ws") true].
 Proof. vm_compute. reflexivity. Qed.
+
+(* ParseParams / ParseToken into a typed target: the value seen is the decoder's value for the raw
+   params / token sent (nothing is decoded when there is none) ... *)
+Theorem parse_seen : forall c s tk zero v,
+  step c s (AParse tk zero (ParseOk v)) =
+  (add_log s (LParsed tk (if is_nil (raw_of c tk) then zero else v)), None).
+Proof. exact parse_seen_pf. Qed.
+
+(* ... and a decode error, the handler not having replied, is answered with system.invalidParams and
+   the decoder's message (params) resp. system.internalError (token) *)
+Theorem parse_error_response : forall c s tk zero m,
+  replied s = false -> raw_of c tk <> [] ->
+  pubs (snd (finish c (step c s (AParse tk zero (ParseFail m))))) =
+  pubs s ++ [Pub (c_reply c)
+               (if tk then PError code_internal (s2b "Internal error: " ++ m) None (cur_meta s)
+                else PError code_invalid_params m None (cur_meta s))].
+Proof. exact parse_error_response_pf. Qed.
